@@ -67,7 +67,9 @@ def write(verif, prop, tier, seed, obs, total_instances, results, violations, kn
             "counted_under_discharged": bool(counted),
         })
     run_instances = len(obs)
-    exhaustive = (run_instances == total_instances) and all_complete
+    # "exhaustive": every unit of every tier was run (no seeded subset of a per-square family was left out)
+    exhaustive = (run_instances == total_instances)
+    used_slices = sorted(set(sl for o in obs for sl in obligations.slices_of(o["name"])) | set(meta.get("slices", [])))
     level = meta["level"]
     samples = [{"obligation": h["obligation"], "statement": h["statement"], "status": h["status"], "checks": h["checks"]}
                for h in harnesses[:6]]
@@ -87,7 +89,8 @@ def write(verif, prop, tier, seed, obs, total_instances, results, violations, kn
         "backends": backends,
         "harnesses": harnesses,
         "samples": samples,
-        "slices": [s for s in slices_meta if s["name"] in meta.get("slices", [])],
+        "slices": [s for s in slices_meta if s["name"] in used_slices],
+        "all_units_complete": bool(all_complete),
         "known_findings_masked": [{"obligation": o["name"], "check": f["desc"], "finding": k["text"]} for o, k, f in known_hits],
         "undecided": [h["obligation"] for h in harnesses if h["status"] == "undecided"],
         "not_machine_checked": meta.get("not_machine_checked", []),
